@@ -128,8 +128,8 @@ def run(ck):
         "psd_micro HK": (lambda i: pgc.psd_microporous(i, psd_model="HK", pore_geometry="slit", branch="ads", p_limits=(1e-6, 0.2)), ["pore_distribution", "pore_volume_cumulative"], ["pore_widths"], 2e-4),
         "psd_micro RY": (lambda i: pgc.psd_microporous(i, psd_model="RY", pore_geometry="sphere", branch="ads", p_limits=(1e-6, 0.2)), ["pore_distribution", "pore_volume_cumulative"], ["pore_widths"], 2e-4),
     }
+    ROUTINES["psd_micro HK-CY"] = (lambda i: pgc.psd_microporous(i, psd_model="HK-CY", pore_geometry="cylinder", branch="ads", p_limits=(1e-6, 0.2)), [], ["pore_widths"], 2e-4)
     if thorough:
-        ROUTINES["psd_micro HK-CY"] = (lambda i: pgc.psd_microporous(i, psd_model="HK-CY", pore_geometry="cylinder", branch="ads", p_limits=(1e-6, 0.2)), [], ["pore_widths"], 2e-4)
         ROUTINES["psd_micro RY-CY"] = (lambda i: pgc.psd_microporous(i, psd_model="RY-CY", pore_geometry="slit", branch="ads", p_limits=(1e-6, 0.2)), [], ["pore_widths"], 2e-4)
 
     S15A = {"routine_family": "alpha_s", "defect": "reference looked up at relative pressures passed as absolute"}
@@ -200,7 +200,8 @@ def run(ck):
                     # against itself: the reference scales too, area (from BET of the reference) scales, slope of loading vs alpha is extensive
                     compare(rname, base, other, ["results[0].area", "results[0].adsorbed_volume", "results[0].slope"], tol, {"routine": rname}, {"isotherm": iname, "scale": k}, factor=k, what="scale of the loadings")
                     compare(rname, base, other, ["alpha_curve", "results[0].corr_coef"], tol, {"routine": rname}, {"isotherm": iname, "scale": k}, what="scale of the loadings")
-                elif not rname.startswith("psd_micro") or not rname.endswith("CY"):
+                else:
+                    # (the Cheng-Yang coverage is loading / (1.01 max loading): scale free, so the widths of the -CY models are intensive too)
                     compare(rname, base, other, ext, tol, {"routine": rname}, {"isotherm": iname, "scale": k}, factor=k, what="scale of the loadings")
                     compare(rname, base, other, inten, tol, {"routine": rname}, {"isotherm": iname, "scale": k}, what="scale of the loadings")
             except (CalculationError, ParameterError) as e:
